@@ -13,6 +13,8 @@ from .seam import ONE_MINUS
 
 TOL = 2.0 ** -35        # breakpoints are located to this precision
 HINT_D = 2.0 ** -36     # a hint h is bracketed by h-d, h+d
+MAX_DEPTH = 48          # draws in one step (one path of the tree)
+MAX_NEST = 120          # nested expansions (exact mode explores subtrees inside subtrees)
 
 
 class Skip(Exception):
@@ -53,6 +55,7 @@ class Explorer(object):
         self.hints = [h for h in hints if h is not None and 0.0 < h < 1.0]
         self.exact = exact
         self._cur_anchor = None
+        self._nest = 0
         self.runs = 0
         self.bisect_probes = 0
         self.hint_hits = 0
@@ -175,7 +178,10 @@ class Explorer(object):
 
     # ------------------------------------------------------------- tree
     def explore(self, base):
-        leaves, retry = self._expand(list(base), [], 1.0, None, False)
+        try:
+            leaves, retry = self._expand(list(base), [], 1.0, None, False)
+        except RecursionError:
+            raise Skip("draw tree too deep to enumerate")
         if retry:
             raise Skip("retry mass escaped the tree")
         return leaves
@@ -183,6 +189,19 @@ class Explorer(object):
     def _expand(self, base, path, mass, anchor, from_uniform):
         """Returns (leaves, retry_mass): retry_mass is the mass that flowed
         back to the choice node ``anchor`` (rejection loop)."""
+        self._nest += 1
+        try:
+            if self._nest > MAX_NEST:
+                raise Skip("draw tree nested deeper than %d (unrecognised rejection loop?)" % MAX_NEST)
+            return self._expand_inner(base, path, mass, anchor, from_uniform)
+        finally:
+            self._nest -= 1
+
+    def _expand_inner(self, base, path, mass, anchor, from_uniform):
+        if len(path) > MAX_DEPTH:
+            # e.g. a rejection loop written with primitives the loop detector does not recognise
+            # (index drawn through random() instead of choice()): not enumerable here, never a verdict
+            raise Skip("draw tree deeper than %d draws in one step" % MAX_DEPTH)
         res = self._run(base + path)
         st = res.status
         if st in ("done", "exc", "after_end"):
